@@ -129,6 +129,8 @@ def run_history(ctx, idx, case):
 
     def on_step(i, op, out, res, st):
         monitors.ns_full_check(st.doc)   # (b), (c) over all scopes and all names so far
+        if case["mode"] == "program":
+            monitors.ns_held_check(st.doc)   # (c) over the names the records hold
         for mon, what, wit in hub.drain():
             if mon == "NS":
                 reports.append({"step": i, "op": op, "what": what, "witness": wit})
